@@ -66,6 +66,7 @@ type c10D struct {
 	U  uint32   `parquet:"u"`
 	P  *int32   `parquet:"p,optional"`
 	ID int64    `parquet:"id"`
+	X  [4]byte  `parquet:"x"` // FIXED_LEN_BYTE_ARRAY(4)
 }
 
 // one optional column, for the L2 histories against the OptCol mirror
@@ -461,6 +462,65 @@ func c10SortAndRead(buf c10Sorter, cols func() []parquet.ColumnBuffer) c10Phase 
 	return *ph
 }
 
+// c10Lender hands rows to the []Row entry points the way a streaming producer does: the Value
+// slices and the bytes of BYTE_ARRAY / FIXED_LEN_BYTE_ARRAY values live in memory that is REUSED
+// for the next batch and overwritten ('#' bytes, zero Values) as soon as the call has returned.
+// The library must have copied whatever it keeps.
+type c10Lender struct {
+	arena  []byte
+	values []parquet.Value
+}
+
+func (l *c10Lender) lend(rows []parquet.Row) []parquet.Row {
+	nb, nv := 0, 0
+	for _, r := range rows {
+		nv += len(r)
+		for _, v := range r {
+			if !v.IsNull() && (v.Kind() == parquet.ByteArray || v.Kind() == parquet.FixedLenByteArray) {
+				nb += len(v.ByteArray())
+			}
+		}
+	}
+	if cap(l.arena) < nb {
+		l.arena = make([]byte, nb)
+	}
+	if cap(l.values) < nv {
+		l.values = make([]parquet.Value, nv)
+	}
+	l.arena, l.values = l.arena[:nb], l.values[:nv]
+	out := make([]parquet.Row, len(rows))
+	ab, av := 0, 0
+	for i, r := range rows {
+		row := l.values[av : av+len(r) : av+len(r)]
+		av += len(r)
+		for j, v := range r {
+			if !v.IsNull() && (v.Kind() == parquet.ByteArray || v.Kind() == parquet.FixedLenByteArray) {
+				b := l.arena[ab : ab+len(v.ByteArray()) : ab+len(v.ByteArray())]
+				ab += copy(b, v.ByteArray())
+				if v.Kind() == parquet.ByteArray {
+					row[j] = parquet.ByteArrayValue(b).Level(v.RepetitionLevel(), v.DefinitionLevel(), v.Column())
+				} else {
+					row[j] = parquet.FixedLenByteArrayValue(b).Level(v.RepetitionLevel(), v.DefinitionLevel(), v.Column())
+				}
+			} else {
+				row[j] = v
+			}
+		}
+		out[i] = row
+	}
+	return out
+}
+
+// reclaim overwrites everything that was lent
+func (l *c10Lender) reclaim() {
+	for i := range l.arena {
+		l.arena[i] = '#'
+	}
+	for i := range l.values {
+		l.values[i] = parquet.Value{}
+	}
+}
+
 func c10Run[T any](cs *c10Case, rows []T, extra []T) (res c10Result, in1, in2 []parquet.Row) {
 	schema := parquet.SchemaOf(new(T))
 	var scols []parquet.SortingColumn
@@ -545,9 +605,24 @@ func c10Run[T any](cs *c10Case, rows []T, extra []T) (res c10Result, in1, in2 []
 	case "gbuf-rows":
 		buf := parquet.NewGenericBuffer[T](sorting)
 		res.declared = c10SortingText(buf.SortingColumns())
+		var l c10Lender
 		twoPhase(buf, buf.ColumnBuffers,
-			func(i, j int) error { _, err := buf.WriteRows(in1[i:j]); return err },
-			func() error { _, err := buf.WriteRows(in2); return err })
+			func(i, j int) error { defer l.reclaim(); _, err := buf.WriteRows(l.lend(in1[i:j])); return err },
+			func() error { defer l.reclaim(); _, err := buf.WriteRows(l.lend(in2)); return err })
+	case "buffer-rows":
+		buf := parquet.NewBuffer(schema, sorting)
+		res.declared = c10SortingText(buf.SortingColumns())
+		var l c10Lender
+		twoPhase(buf, buf.ColumnBuffers,
+			func(i, j int) error { defer l.reclaim(); _, err := buf.WriteRows(l.lend(in1[i:j])); return err },
+			func() error { defer l.reclaim(); _, err := buf.WriteRows(l.lend(in2)); return err })
+	case "rowbuf-rows":
+		buf := parquet.NewRowBuffer[T](sorting)
+		res.declared = c10SortingText(buf.SortingColumns())
+		var l c10Lender
+		twoPhase(buf, nil,
+			func(i, j int) error { defer l.reclaim(); _, err := buf.WriteRows(l.lend(in1[i:j])); return err },
+			func() error { defer l.reclaim(); _, err := buf.WriteRows(l.lend(in2)); return err })
 	case "buffer":
 		buf := parquet.NewBuffer(schema, sorting)
 		res.declared = c10SortingText(buf.SortingColumns())
@@ -574,8 +649,9 @@ func c10Run[T any](cs *c10Case, rows []T, extra []T) (res c10Result, in1, in2 []
 		twoPhase(buf, nil,
 			func(i, j int) error { _, err := buf.Write(rows[i:j]); return err },
 			func() error { _, err := buf.Write(extra); return err })
-	case "sortw":
+	case "sortw", "sortw-rows":
 		var ph c10Phase
+		var l c10Lender
 		func() {
 			defer func() {
 				if r := recover(); r != nil {
@@ -585,7 +661,15 @@ func c10Run[T any](cs *c10Case, rows []T, extra []T) (res c10Result, in1, in2 []
 			out := new(bytes.Buffer)
 			w := parquet.NewSortingWriter[T](out, int64(cs.SortRun),
 				parquet.SortingWriterConfig(parquet.SortingColumns(scols...), parquet.DropDuplicatedRows(cs.Dedupe)))
-			if err := batched(len(rows), func(i, j int) error { _, err := w.Write(rows[i:j]); return err }); err != nil {
+			if err := batched(len(rows), func(i, j int) error {
+				if cs.Container == "sortw-rows" {
+					defer l.reclaim()
+					_, err := w.WriteRows(l.lend(in1[i:j]))
+					return err
+				}
+				_, err := w.Write(rows[i:j])
+				return err
+			}); err != nil {
 				ph.err = err.Error()
 				return
 			}
@@ -742,7 +826,7 @@ func c10Check(ctx *core.Ctx, cs *c10Case, schema *parquet.Schema, res c10Result,
 					switch {
 					case k.maxRep > 0:
 						key = "repeated-sort-key-order"
-					case nullVsValue && cs.Container == "sortw":
+					case nullVsValue && strings.HasPrefix(cs.Container, "sortw"):
 						key = "sorting-writer-merge-ignores-nulls" // F12 (C09): row-group ranges from non-null bounds only
 					case nullVsValue && k.Desc:
 						key = "descending-nullable-null-order-reversed"
@@ -978,6 +1062,7 @@ func c10GenD(r *rand.Rand, n int, small bool, idBase int) []c10D {
 		if small && r.Intn(2) == 0 {
 			rows[i].ID = int64(r.Intn(2))
 		}
+		copy(rows[i].X[:], pick(r, []string{"aaaa", "aaab", "zzzz", "\x00\x00\x00\x01", "\xff\xff\xff\xff", "abcd"}, small))
 	}
 	return rows
 }
@@ -1096,7 +1181,7 @@ var c10Types = []c10TypeInfo{
 			}
 			c10Exec(ctx, cs, rows, extra)
 		}, replay: c10ReplayAs[c10C]},
-	{name: "D{l []int32; w []string; k int32; s string; u uint32; p *int32?; id}", cols: [][]string{{"k"}, {"s"}, {"u"}, {"p"}, {"id"}, {"l"}, {"w"}}, nrep: 2,
+	{name: "D{l []int32; w []string; k int32; s string; u uint32; p *int32?; id; x [4]byte}", cols: [][]string{{"k"}, {"s"}, {"u"}, {"p"}, {"id"}, {"x"}, {"l"}, {"w"}}, nrep: 2,
 		run: func(ctx *core.Ctx, cs *c10Case, r *rand.Rand, n int, small bool) {
 			rows := c10GenD(r, n, small, 1000)
 			var extra []c10D
@@ -1153,7 +1238,7 @@ var c10BatchSizes = []int{1, 2, 7, 8, 9, 15, 16, 17, 64, 1000}
 func c10RandCase(r *rand.Rand, ti int, forceCols [][]int) (*c10Case, int, bool) {
 	t := c10Types[ti]
 	cs := &c10Case{Type: t.name, Extra: -1}
-	cs.Container = []string{"gbuf", "gbuf", "gbuf-rows", "buffer", "rowbuf", "sortw", "sortw"}[r.Intn(7)]
+	cs.Container = []string{"gbuf", "gbuf", "gbuf-rows", "buffer", "buffer-rows", "rowbuf", "rowbuf-rows", "sortw", "sortw", "sortw-rows"}[r.Intn(10)]
 	n := c10Sizes[r.Intn(len(c10Sizes))]
 	if r.Intn(12) == 0 {
 		n = 130 + r.Intn(270)
@@ -1180,12 +1265,12 @@ func c10RandCase(r *rand.Rand, ti int, forceCols [][]int) (*c10Case, int, bool) 
 	}
 	small := r.Intn(3) > 0
 	switch cs.Container {
-	case "sortw":
+	case "sortw", "sortw-rows":
 		cs.SortRun = []int{1, 2, 3, 8, 9, 17, 64, 1000}[r.Intn(8)]
 		// (without sorting columns every row has the same, empty key; duplicate dropping is then
 		// applied per sort run only — degenerate, not generated)
 		cs.Dedupe = r.Intn(3) == 0 && len(cs.Sorting) > 0
-	case "gbuf", "gbuf-rows", "buffer":
+	case "gbuf", "gbuf-rows", "buffer", "buffer-rows", "rowbuf-rows":
 		if r.Intn(3) == 0 {
 			cs.Extra = []int{0, 1, 3, 9, 17}[r.Intn(5)]
 		}
@@ -1568,7 +1653,7 @@ func c10RepHistory(ctx *core.Ctx, r *rand.Rand, reqs *[]string, pend *[]func(str
 // ---------------------------------------------------------------- entry point
 
 func RunC10(ctx *core.Ctx) {
-	ctx.SetRule("L1: sort.Sort on GenericBuffer[T] (typed Write and WriteRows), Buffer, RowBuffer[T], and SortingWriter[T] Close over four struct schemas (required / optional pointer / optional zero-is-null / nested optional group / repeated leaves, also repeated leaves placed before the required key columns), 0-3 sorting columns x asc/desc x nulls first/last, null and value runs of length 1,2,3,7,8,9,15,16,17,64,65, small alphabets (duplicates), write batches around 8 and 64, optional second phase (write more, sort again); L2: broadcastRangeInt32 for lengths 0..40,63..65,127..129,255,257 x 17 bases, and write/Swap/Less/Page histories on one optional column against the Lean OptCol mirror and on one repeated column against the RepCol mirror. Distinct by canonical input; non-trivial = some nullable sorting column holds both nulls and values (L1), run length >= 8 not a multiple of 8 (kernel), more than 3 ops (history)")
+	ctx.SetRule("L1: sort.Sort on GenericBuffer[T], Buffer, RowBuffer[T] and SortingWriter[T] Close, each through its typed Write and through its []Row entry point (WriteRows; the rows are lent from producer memory that is reused and overwritten after every call) over four struct schemas (required / optional pointer / optional zero-is-null / nested optional group / repeated leaves, also repeated leaves placed before the required key columns), 0-3 sorting columns x asc/desc x nulls first/last, null and value runs of length 1,2,3,7,8,9,15,16,17,64,65, small alphabets (duplicates), write batches around 8 and 64, optional second phase (write more, sort again); L2: broadcastRangeInt32 for lengths 0..40,63..65,127..129,255,257 x 17 bases, and write/Swap/Less/Page histories on one optional column against the Lean OptCol mirror and on one repeated column against the RepCol mirror. Distinct by canonical input; non-trivial = some nullable sorting column holds both nulls and values (L1), run length >= 8 not a multiple of 8 (kernel), more than 3 ops (history)")
 	d := ctx.Driver()
 	if ctx.Replay != "" {
 		c10Guard(ctx, "panic-in-replay", "replaying a recorded case panicked", func() map[string]any { return map[string]any{"file": ctx.Replay} },
